@@ -304,16 +304,22 @@ Section Records.
         apply Hne. rewrite Ep, Ep'. f_equal. apply (U p p' c); apply Ed; try exact Hk.
         + exists r. tauto.
         + exists r'. tauto.
-      - intros NT. split; [intros E; rewrite E in L; cbn in L; lia|]. split; [|exact R].
+      - intros NT.
+        assert (U : forall k, (S k < n)%nat -> forall p p' c,
+                  lists (nth k (raw_tree records) []) p c -> lists (nth k (raw_tree records) []) p' c -> p = p').
+        { intros k Hk p p' c Hl Hl'. apply Ed in Hl, Hl'; try exact Hk.
+          destruct Hl as (r & Hr & Ep & Ec), Hl' as (r' & Hr' & Ep' & Ec').
+          destruct (Z.eq_dec p p') as [E|Hne]; [exact E|]. exfalso. apply NT.
+          exists k, r, r', c. repeat split; try assumption. congruence. }
+        split; [intros E; rewrite E in L; cbn in L; lia|]. split; [|split; [exact R|]].
+        2:{ rewrite L. intros k Hk. apply all_children_nodup;
+              [apply wf_nth; exact W | apply inner_nodup_nth; [exact N | rewrite L; exact Hk] | apply U; exact Hk]. }
         rewrite L. intros k Hk. split; [|split].
         + intros c Hc. apply Nd in Hc; [|lia]. destruct Hc as (r & Hr & Ec).
           destruct (Hrec r k Hr ltac:(lia)) as [p Ep]. exists p. apply Ed; [exact Hk|]. exists r. tauto.
         + intros p c Hl. apply Ed in Hl; [|exact Hk]. destruct Hl as (r & Hr & _ & Ec). apply Nd; [lia|].
           exists r. tauto.
-        + intros p p' c Hl Hl'. apply Ed in Hl, Hl'; try exact Hk.
-          destruct Hl as (r & Hr & Ep & Ec), Hl' as (r' & Hr' & Ep' & Ec').
-          destruct (Z.eq_dec p p') as [E|Hne]; [exact E|]. exfalso. apply NT.
-          exists k, r, r', c. repeat split; try assumption. congruence. }
+        + apply U. exact Hk. }
     unfold get_taxonomy_tree, mk_tree. fold (raw_tree records).
     destruct (two_parents_b records) eqn:Eb.
     - apply two_parents_b_spec in Eb. right. split; [|exact Eb].
